@@ -48,7 +48,7 @@ def read_pid(path):
         return None
 
 
-def run_history(hist, bind, stopsig, wk="sync", nopid=False):
+def run_history(hist, bind, stopsig, wk="sync", nopid=False, extra_args=()):
     """nopid: no pid file is configured; masters are then found through the process table"""
     early = any(op == "USR2_EARLY" for op, _ in hist)
     daemon = any(op == "WINCH" for op, _ in hist)
@@ -57,7 +57,7 @@ def run_history(hist, bind, stopsig, wk="sync", nopid=False):
     if early:
         env["VERIF_BOOT_SLEEP"] = "1.5"
     s = rp.Server(wk, workers=1, bind=bind, pidfile=not nopid, daemon=daemon,
-                  args=["--graceful-timeout", "3"] + (["--preload"] if early else []), env=env, name="c14")
+                  args=["--graceful-timeout", "3"] + (["--preload"] if early else []) + list(extra_args), env=env, name="c14")
     masters = {}           # name -> pid
     stop = threading.Event()
     counters = {"refused": 0, "complete": 0, "failed": 0}
@@ -216,7 +216,7 @@ def run_history(hist, bind, stopsig, wk="sync", nopid=False):
         stop.set()
         [t.join(6) for t in ths]
         tr = {"unix": bind == "unix", "nopid": bool(nopid), "ev": ev}
-        return tr, {"hist": hist, "bind": bind, "nopid": bool(nopid), "sig": int(stopsig), "complete": counters["complete"], "failed": counters["failed"],
+        return tr, {"hist": hist, "bind": bind, "nopid": bool(nopid), "extra_args": list(extra_args), "sig": int(stopsig), "complete": counters["complete"], "failed": counters["failed"],
                     "masters": masters}
     finally:
         stop.set()
@@ -267,12 +267,16 @@ def c14(ctx):
                 (HISTORIES[4], "tcp", signal.SIGTERM), (HISTORIES[8], "unix", signal.SIGTERM),
                 (HISTORIES[9], "tcp", signal.SIGTERM), (HISTORIES[10], "unix", signal.SIGTERM),
                 (HISTORIES[4], "unix", signal.SIGTERM, True), (HISTORIES[3], "tcp", signal.SIGQUIT, True),
-                (HISTORIES[6], "unix", signal.SIGTERM), (HISTORIES[7], "tcp", signal.SIGQUIT)]
+                (HISTORIES[6], "unix", signal.SIGTERM), (HISTORIES[7], "tcp", signal.SIGQUIT),
+                # worker timeouts switched off (--timeout 0): promotion and reaping must not depend on the watchdog's tick
+                (HISTORIES[4], "tcp", signal.SIGTERM, False, ("--timeout", "0"))]
     else:
         plan = [(h, b, sg) for h in HISTORIES for b in ("tcp", "unix") for sg in (signal.SIGTERM, signal.SIGQUIT)]
         plan += [(HISTORIES[k], b, signal.SIGTERM, True) for k in (0, 1, 3, 4, 6, 7) for b in ("tcp", "unix")]
+        plan += [(HISTORIES[k], b, signal.SIGTERM, False, ("--timeout", "0")) for k in (0, 1, 3, 4) for b in ("tcp", "unix")]
     from props.reload_real import _parallel
-    results = _parallel(plan, lambda a, i: run_history(a[0], a[1], a[2], wk=rng.choice(["sync", "gthread"]), nopid=len(a) > 3 and a[3]), par=10)
+    results = _parallel(plan, lambda a, i: run_history(a[0], a[1], a[2], wk=rng.choice(["sync", "gthread"]), nopid=len(a) > 3 and a[3],
+                                                           extra_args=a[4] if len(a) > 4 else ()), par=11)
     ctx.coverage["real_process_histories"] = len(results)
     for unix in (True, False):
         sel = [(t, m) for t, m in results if t["unix"] == unix]
@@ -289,7 +293,8 @@ def c14(ctx):
                 ctx.note_drift("Upgrade model not followed at step %d: hist=%s bind=%s events=%s" % (step, m["hist"], m["bind"], t["ev"]))
                 continue
             ops = "+".join("%s:%s" % (o, x) for o, x in m["hist"][:max(1, step // 2)])
-            ctx.violation("C14/%s/bind=%s%s/%s" % (v, m["bind"], ",no-pidfile" if m.get("nopid") else "", ops), "%s: %s events=%s" % (v, m, t["ev"]), {"trace": t, "meta": m})
+            ctx.violation("C14/%s/bind=%s%s%s/%s" % (v, m["bind"], ",no-pidfile" if m.get("nopid") else "",
+                                                      "," + " ".join(m["extra_args"]) if m.get("extra_args") else "", ops), "%s: %s events=%s" % (v, m, t["ev"]), {"trace": t, "meta": m})
     for t, m in results[:2]:
         ctx.sample({"history": m["hist"], "bind": m["bind"], "requests_completed": m["complete"], "events": t["ev"]})
     ctx.assumptions += ["real two-master runs: checkpoints taken 0.8 s after USR2 and 1.6 s after a stop (main-loop period 1 s)",
@@ -298,7 +303,8 @@ def c14(ctx):
 
 def replay(ctx, data):
     m = data["case"]["meta"]
-    t, m2 = run_history([tuple(x) for x in m["hist"]], m["bind"], m["sig"], nopid=bool(m.get("nopid")))
+    t, m2 = run_history([tuple(x) for x in m["hist"]], m["bind"], m["sig"], nopid=bool(m.get("nopid")),
+                        extra_args=m.get("extra_args") or ())
     print(json.dumps(t))
     verdicts, _ = tlc.validate_batch("UpgradeTrace", up_cfg("trace_replay", t["unix"], trace=True), [t], name="UpgradeTrace_replay")
     print("verdict:", verdicts[0])
